@@ -36,6 +36,8 @@ class ExactAlgorithm(ExactAlgorithmBase):
         """
         super().__init__(optimize)
         try:
+            # ExactAlgorithmCplex can be instantiated even if cplex is missing: the import is checked here
+            import cplex  # pylint: disable=import-outside-toplevel,unused-import
             self._alg = ExactAlgorithmCplex(optimize=optimize)
         except ModuleNotFoundError:
             self._alg = ExactAlgorithmPulp()
